@@ -138,6 +138,12 @@ def run(chk, replay=None):
     for k, p in enumerate(precs[: 6000 if tier == "thorough" else 1500]):
         child_recs.append({"op": "pickle", "t": p["t"], "r": p["r"], "id": nid + k})
         ctx[nid + k] = {"cls": "?", "obj": p["shown"], "res": f"loaded under PYTHONHASHSEED={p['hs']}", "opname": "pickle(fresh-process)"}
+    from ..expr_carrier import default_argument_records
+
+    drecs, dctx, dskipped = default_argument_records(embs, start_id=nid + len(child_recs) + 1, ops=("pickle",))
+    ctx.update(dctx)
+    recs = recs + drecs
+    chk.part("optional_arguments_omitted", records=len(drecs), classes=sorted({v["cls"] for v in dctx.values()}), skipped=dskipped)
     good = [r for r in recs if r["op"] == "pickle"] + child_recs
     tv = trace.validate("Trace_Expr", good, cfg=TRACE_CFG, timeout=2400)
     chk.add_tlc("trace_pickle_records", tv.res, traces=len(good))
